@@ -65,8 +65,9 @@ MaxDS(shape, n, ds0) == CASE shape = "globals" -> ds0 + 2 * n + 1
                           [] shape = "locals" -> ds0 + n + 3
                           [] shape = "jump" -> ds0 + n + 3
                           [] shape = "refused-then-continue" -> ds0 + n + 12
+                          [] shape = "longjump" -> ds0 + 12
 MaxLocal(shape, n) == IF shape = "locals" THEN n - 1 ELSE IF shape = "refused-then-continue" THEN n ELSE IF shape = "jump" THEN 0 ELSE -1
-MaxJump(shape, n) == IF shape \in {"locals", "jump", "refused-then-continue"} THEN n + 2 ELSE 2
+MaxJump(shape, n) == IF shape \in {"locals", "jump", "refused-then-continue", "longjump"} THEN n + 2 ELSE 2
 \* What the property demands does not depend on how economically a compiler uses the address space: a script needing at most
 \* half of every limit under this accounting must work; one whose number of distinct locals cannot be addressed at all must be
 \* refused; in between (and wherever a more economical compiler could fit the script) either outcome is right, provided an
